@@ -60,3 +60,9 @@ func init() {
 		Old: "\tif int(size) > s.opts.maxSendMessageSize {\n", New: "\tif int(size) > s.opts.maxReceiveMessageSize {\n",
 		Expect: "(*streamGRPC).SendMsg/refusal-uses-send-limit", Why: "reply checked against the receive limit"})
 }
+
+func init() {
+	control(&Control{ID: "eofphantom-end-as-message", Rule: "EOF-NO-PHANTOM", File: "larking/http.go",
+		Old: "\t\t\tif n == 0 && count > 0 {\n", New: "\t\t\tif n == 0 && count > 0 && len(b) > 0 {\n",
+		Expect: "end-of-body-is-no-message", Why: "clean end delivered as an empty message"})
+}
